@@ -14,7 +14,7 @@ ASSUMPTIONS = [
 
 
 def run(tier, seed):
-    return explore("C01", PROPS, [("core", 1.0)], tier, seed, 900, 40000, ASSUMPTIONS)
+    return explore("C01", PROPS, [("core", 0.75), ("boundary_nowin", 1.5)], tier, seed, 900, 40000, ASSUMPTIONS)
 
 
 def explore(prop, props, profiles, tier, seed, n_quick, n_thorough, assumptions, rule_extra=""):
